@@ -3777,17 +3777,25 @@ class BoutMesh(Mesh):
                 ixseps2 = self.nx
             elif len(self.x_startinds) == 4:
                 # Two separatrices
-                if self.equilibrium.double_null_type == "lower":
-                    ixseps1 = self.x_startinds[1]
-                    ixseps2 = self.x_startinds[2]
-                elif self.equilibrium.double_null_type == "upper":
-                    ixseps1 = self.x_startinds[2]
-                    ixseps2 = self.x_startinds[1]
-                else:
+                if self.equilibrium.double_null_type not in ("lower", "upper"):
                     raise ValueError(
                         'Expected either double_null_type=="lower" or '
                         'double_null_type="upper" when there are two separatrices.'
                     )
+                # ixseps1 belongs to the X-point whose legs are at the start and end of
+                # the y-range (jyseps1_1, jyseps2_2). That is the lower X-point, unless
+                # the y-range starts at the upper outer leg.
+                first_xpoint_is_primary = (
+                    self.equilibrium.double_null_type == "lower"
+                ) != bool(
+                    getattr(self.equilibrium.user_options, "start_at_upper_outer", False)
+                )
+                if first_xpoint_is_primary:
+                    ixseps1 = self.x_startinds[1]
+                    ixseps2 = self.x_startinds[2]
+                else:
+                    ixseps1 = self.x_startinds[2]
+                    ixseps2 = self.x_startinds[1]
             else:
                 raise ValueError("More than two separatrices not supported by BoutMesh")
 
@@ -3803,10 +3811,14 @@ class BoutMesh(Mesh):
             elif len(self.y_regions_noguards) == 3:
                 # single-null
                 jyseps1_1 = self.y_regions_noguards[0] - 1
-                jyseps2_1 = self.ny // 2
-                ny_inner = self.ny // 2
-                jyseps1_2 = self.ny // 2
                 jyseps2_2 = sum(self.y_regions_noguards[:2]) - 1
+                # jyseps2_1 == jyseps1_2 flags a single null; keep the value inside the
+                # core (jyseps1_1 < value <= jyseps2_2) whatever the leg lengths are, so
+                # that the indices are ordered
+                jyseps2_1 = jyseps1_1 + 1 + self.y_regions_noguards[1] // 2
+                jyseps2_1 = min(jyseps2_1, jyseps2_2)
+                ny_inner = jyseps2_1
+                jyseps1_2 = jyseps2_1
             elif len(self.y_regions_noguards) == 4:
                 # single X-point with all 4 legs ending on walls
                 jyseps1_1 = self.y_regions_noguards[0] - 1
@@ -3884,10 +3896,15 @@ class BoutMesh(Mesh):
             # member
             chi.ylow = 2.0 * numpy.pi * self.zShift.ylow / self.ShiftAngle.centre
             # set to NaN in divertor leg regions where chi is not valid
+            # (the arrays include y-boundary guard cells, the jyseps* indices do not)
+            myg_lower = myg if jyseps1_1 >= 0 else 0
+            myg_upper = 2 * myg if jyseps2_1 != jyseps1_2 else 0
             for c in [chi.centre, chi.xlow, chi.ylow]:
-                c[:, : jyseps1_1 + 1] = float("nan")
-                c[:, jyseps2_1 + 1 : jyseps1_2 + 1] = float("nan")
-                c[:, jyseps2_2 + 1 :] = float("nan")
+                c[:, : jyseps1_1 + 1 + myg_lower] = float("nan")
+                c[:, jyseps2_1 + 1 + myg_lower : jyseps1_2 + 1 + myg_lower + myg_upper] = (
+                    float("nan")
+                )
+                c[:, jyseps2_2 + 1 + myg_lower + myg_upper :] = float("nan")
             chi.attributes["bout_type"] = "Field2D"
             self.writeArray("chi", chi, f)
 
